@@ -230,6 +230,24 @@ var soloCmds = []string{
 
 const soloPre = "i=1; x=0; a=(p q); declare -A m=([j]=w); unset d e"
 
+// corpusLines reads a pinned corpus file (relative to /verif), skipping comments.
+func corpusLines(rel string) []string {
+	var out []string
+	for _, p := range []string{rel, "/verif/" + rel} {
+		b, err := os.ReadFile(p)
+		if err != nil {
+			continue
+		}
+		for _, ln := range strings.Split(string(b), "\n") {
+			if ln != "" && !strings.HasPrefix(ln, "#") {
+				out = append(out, ln)
+			}
+		}
+		break
+	}
+	return out
+}
+
 func main() {
 	o := hx.ParseArgs()
 	defer hx.Flush()
@@ -370,6 +388,27 @@ func main() {
 				)
 			}
 		}
+		// pinned regression corpus (corpus/c27/regress.txt), visited on every seed and tier
+		for _, ln := range corpusLines("corpus/c27/regress.txt") {
+			f := strings.Split(ln, "\t")
+			if len(f) != 3 {
+				continue
+			}
+			var ctxs []string
+			switch f[0] {
+			case "*":
+				ctxs = []string{"subshell", "cmdsubst", "backquote", "procin", "procout", "pipe", "bg"}
+			case "fg":
+				ctxs = []string{"subshell", "cmdsubst", "backquote"}
+			case "bg":
+				ctxs = []string{"procin", "procout", "pipe", "bg"}
+			default:
+				ctxs = []string{f[0]}
+			}
+			for _, ctx := range ctxs {
+				progs = append(progs, struct{ ctx, pre, child string }{ctx, f[1], f[2]})
+			}
+		}
 		progs = append(progs, struct{ ctx, pre, child string }{"pipe_last", "a=1", "a=5"})
 		// solo: one command, mutation inside an argument expansion, no snapshot inside the construct
 		for _, ctx := range []string{"subshell", "cmdsubst", "backquote", "procin", "procout", "pipe", "bg"} {
@@ -389,8 +428,8 @@ func main() {
 				out.Prog = soloPre + "; __snap p0; " + wrap(p.ctx, p.child) + "; __snap p1"
 			} else if p.pre == "SOLOF" { // inside a function body, with a local of the same name
 				out.Prog = soloPre + "; w() { local i=3; __snap p0; " + wrap(p.ctx, p.child) + "; __snap p1; }; w"
-			} else if strings.Contains(p.pre, "w() { X; }") {
-				out.Prog = strings.Replace(p.pre, "X", body, 1) + "; w"
+			} else if strings.Contains(p.pre, "w() {") && strings.Contains(p.pre, "X;") {
+				out.Prog = strings.Replace(p.pre, "X;", body+";", 1) + "; w"
 			} else if strings.Contains(p.pre, "X") {
 				out.Prog = strings.Replace(p.pre, "X", body, 1) + "; f"
 			} else {
